@@ -212,6 +212,187 @@ theorem apply_block (r : List (Nat × Int)) (rest : List (Nat × Int)) (v w : Li
     intro p _
     simp [shift, List.getD_eq_getElem?_getD, List.getElem?_append_right]
 
+/-- shell-level facts at the `convShell` (label) level used by the basis-level theorems -/
+theorem convShell_length (c1 c2 : List Label) (r : List (Nat × Int)) (h : convShell c1 c2 false = .ok r) :
+    r.length = c1.length ∧ r.length = c2.length ∧ ∀ p ∈ r, p.1 < c1.length := by
+  unfold convShell at h
+  have hc : Compatible (c1.map parse) (c2.map parse) := (convCore_ok_iff _ _ false).mp ⟨r, h⟩
+  have hs := convCore_spec _ _ r h
+  have hb := (convCore_perm_nodup _ _ r h).2
+  have l1 : (c1.map parse).length = c1.length := by simp
+  have l2 : (c2.map parse).length = c2.length := by simp
+  refine ⟨by rw [hs.1, ← hc.1, l1], by rw [hs.1, l2], ?_⟩
+  intro p hp
+  have := hb p.1 (List.mem_map.mpr ⟨p, hp, rfl⟩)
+  simpa using this
+
+theorem shift_zero (r : List (Nat × Int)) : r.map (shift 0) = r := by
+  induction r with
+  | nil => rfl
+  | cons p r ih => simp [shift, ih]
+
+/-- 6d. Basis level: converting a whole basis there and back is the identity, for every shell
+list (any number of shells, generalized contractions included) and any pair of tables. -/
+theorem convBasis_inverse (t1 t2 : Table) (keys : List Key) :
+    ∀ (r r' : List (Nat × Int)), convBasis t1 t2 keys false = .ok r → convBasis t2 t1 keys false = .ok r' →
+      ∀ (v : List Int), v.length = r.length → apply r' (apply r v) = v := by
+  unfold convBasis
+  induction keys with
+  | nil =>
+    intro r r' h h' v hv
+    simp only [convBasisFrom, Except.ok.injEq] at h h'
+    subst h; subst h'
+    have : v = [] := List.eq_nil_of_length_eq_zero (by simpa using hv)
+    subst this; rfl
+  | cons k ks ih =>
+    intro r r' h h' v hv
+    simp only [convBasisFrom] at h h'
+    -- unfold the forward direction
+    cases hl1 : lookup t1 k with
+    | error e => simp [hl1] at h
+    | ok c1 =>
+      cases hl2 : lookup t2 k with
+      | error e => simp [hl1, hl2] at h
+      | ok c2 =>
+        simp only [hl1, hl2] at h h'
+        cases hs : convShell c1 c2 false with
+        | error e => simp [hs] at h
+        | ok r1 =>
+          cases hs' : convShell c2 c1 false with
+          | error e => simp [hs'] at h'
+          | ok r1' =>
+            simp only [hs, hs'] at h h'
+            rw [convBasisFrom_shift] at h h'
+            cases hb : convBasisFrom t1 t2 false 0 ks with
+            | error e => simp [hb, Except.map] at h
+            | ok rest =>
+              cases hb' : convBasisFrom t2 t1 false 0 ks with
+              | error e => simp [hb', Except.map] at h'
+              | ok rest' =>
+                simp only [hb, hb', Except.map, Except.ok.injEq, shift_zero] at h h'
+                subst h; subst h'
+                obtain ⟨hn1, hn2, hbound⟩ := convShell_length c1 c2 r1 hs
+                obtain ⟨hn1', hn2', hbound'⟩ := convShell_length c2 c1 r1' hs'
+                -- split the vector
+                have hvlen : v.length = r1.length + rest.length := by simpa using hv
+                have hsplit : v = v.take r1.length ++ v.drop r1.length := (List.take_append_drop _ _).symm
+                have htake : (v.take r1.length).length = r1.length := by
+                  rw [List.length_take]; omega
+                have hdrop : (v.drop r1.length).length = rest.length := by
+                  rw [List.length_drop]; omega
+                have zero_add' : 0 + r1.length = r1.length := Nat.zero_add _
+                have zero_add'' : 0 + r1'.length = r1'.length := Nat.zero_add _
+                rw [zero_add'] ; rw [zero_add'']
+                rw [hsplit]
+                have e1 : apply (r1 ++ rest.map (shift r1.length)) (v.take r1.length ++ v.drop r1.length)
+                    = apply r1 (v.take r1.length) ++ apply rest (v.drop r1.length) := by
+                  have := apply_block r1 rest (v.take r1.length) (v.drop r1.length)
+                    (fun p hp => by rw [htake, hn1]; exact hbound p hp)
+                  rwa [htake] at this
+                rw [e1]
+                have hlen1 : (apply r1 (v.take r1.length)).length = r1'.length := by
+                  rw [apply_length, hn2, ← hn1']
+                have e2 : apply (r1' ++ rest'.map (shift r1'.length))
+                      (apply r1 (v.take r1.length) ++ apply rest (v.drop r1.length))
+                    = apply r1' (apply r1 (v.take r1.length)) ++ apply rest' (apply rest (v.drop r1.length)) := by
+                  have := apply_block r1' rest' (apply r1 (v.take r1.length)) (apply rest (v.drop r1.length))
+                    (fun p hp => by rw [hlen1, hn1']; exact hbound' p hp)
+                  rwa [hlen1] at this
+                rw [e2]
+                have i1 : apply r1' (apply r1 (v.take r1.length)) = v.take r1.length := by
+                  unfold convShell at hs hs'
+                  exact conv_inverse _ _ r1 r1' hs hs' _ (by rw [htake, hn1]; simp)
+                have i2 : apply rest' (apply rest (v.drop r1.length)) = v.drop r1.length :=
+                  ih rest rest' hb hb' _ hdrop
+                rw [i1, i2]
+
+/-- 6e. Basis level: A → B → C equals A → C for every shell list and any three tables. -/
+theorem convBasis_compose (t1 t2 t3 : Table) (keys : List Key) :
+    ∀ (r12 r23 r13 : List (Nat × Int)), convBasis t1 t2 keys false = .ok r12 →
+      convBasis t2 t3 keys false = .ok r23 → convBasis t1 t3 keys false = .ok r13 →
+      ∀ (v : List Int), v.length = r12.length → apply r23 (apply r12 v) = apply r13 v := by
+  unfold convBasis
+  induction keys with
+  | nil =>
+    intro r12 r23 r13 h12 h23 h13 v _
+    simp only [convBasisFrom, Except.ok.injEq] at h12 h23 h13
+    subst h12; subst h23; subst h13; rfl
+  | cons k ks ih =>
+    intro r12 r23 r13 h12 h23 h13 v hv
+    simp only [convBasisFrom] at h12 h23 h13
+    cases hl1 : lookup t1 k with
+    | error e => simp [hl1] at h12
+    | ok c1 =>
+      cases hl2 : lookup t2 k with
+      | error e => simp [hl1, hl2] at h12
+      | ok c2 =>
+        cases hl3 : lookup t3 k with
+        | error e => simp [hl2, hl3] at h23
+        | ok c3 =>
+          simp only [hl1, hl2, hl3] at h12 h23 h13
+          cases hs12 : convShell c1 c2 false with
+          | error e => simp [hs12] at h12
+          | ok s12 =>
+            cases hs23 : convShell c2 c3 false with
+            | error e => simp [hs23] at h23
+            | ok s23 =>
+              cases hs13 : convShell c1 c3 false with
+              | error e => simp [hs13] at h13
+              | ok s13 =>
+                simp only [hs12, hs23, hs13] at h12 h23 h13
+                rw [convBasisFrom_shift] at h12 h23 h13
+                cases hb12 : convBasisFrom t1 t2 false 0 ks with
+                | error e => simp [hb12, Except.map] at h12
+                | ok q12 =>
+                  cases hb23 : convBasisFrom t2 t3 false 0 ks with
+                  | error e => simp [hb23, Except.map] at h23
+                  | ok q23 =>
+                    cases hb13 : convBasisFrom t1 t3 false 0 ks with
+                    | error e => simp [hb13, Except.map] at h13
+                    | ok q13 =>
+                      simp only [hb12, hb23, hb13, Except.map, Except.ok.injEq, shift_zero] at h12 h23 h13
+                      subst h12; subst h23; subst h13
+                      obtain ⟨a1, a2, ab⟩ := convShell_length c1 c2 s12 hs12
+                      obtain ⟨b1, b2, bb⟩ := convShell_length c2 c3 s23 hs23
+                      obtain ⟨d1, d2, db⟩ := convShell_length c1 c3 s13 hs13
+                      have hvlen : v.length = s12.length + q12.length := by simpa using hv
+                      have hsplit : v = v.take s12.length ++ v.drop s12.length := (List.take_append_drop _ _).symm
+                      have htake : (v.take s12.length).length = s12.length := by
+                        rw [List.length_take]; omega
+                      have hdrop : (v.drop s12.length).length = q12.length := by
+                        rw [List.length_drop]; omega
+                      have z1 : 0 + s12.length = s12.length := Nat.zero_add _
+                      have z2 : 0 + s23.length = s23.length := Nat.zero_add _
+                      have z3 : 0 + s13.length = s13.length := Nat.zero_add _
+                      rw [z1, z2, z3, hsplit]
+                      have e1 : apply (s12 ++ q12.map (shift s12.length)) (v.take s12.length ++ v.drop s12.length)
+                          = apply s12 (v.take s12.length) ++ apply q12 (v.drop s12.length) := by
+                        have := apply_block s12 q12 (v.take s12.length) (v.drop s12.length)
+                          (fun p hp => by rw [htake, a1]; exact ab p hp)
+                        rwa [htake] at this
+                      have hs13len : s13.length = s12.length := by rw [d1, a1]
+                      have e3 : apply (s13 ++ q13.map (shift s13.length)) (v.take s12.length ++ v.drop s12.length)
+                          = apply s13 (v.take s12.length) ++ apply q13 (v.drop s12.length) := by
+                        have := apply_block s13 q13 (v.take s12.length) (v.drop s12.length)
+                          (fun p hp => by rw [htake, a1]; exact db p hp)
+                        rw [htake] at this
+                        rw [hs13len]; exact this
+                      have hlen1 : (apply s12 (v.take s12.length)).length = s23.length := by
+                        rw [apply_length, a2, ← b1]
+                      have e2 : apply (s23 ++ q23.map (shift s23.length))
+                            (apply s12 (v.take s12.length) ++ apply q12 (v.drop s12.length))
+                          = apply s23 (apply s12 (v.take s12.length)) ++ apply q23 (apply q12 (v.drop s12.length)) := by
+                        have := apply_block s23 q23 (apply s12 (v.take s12.length)) (apply q12 (v.drop s12.length))
+                          (fun p hp => by rw [hlen1, b1]; exact bb p hp)
+                        rwa [hlen1] at this
+                      rw [e1, e2, e3]
+                      have i1 : apply s23 (apply s12 (v.take s12.length)) = apply s13 (v.take s12.length) := by
+                        unfold convShell at hs12 hs23 hs13
+                        exact conv_compose _ _ _ s12 s23 s13 hs12 hs23 hs13 _
+                      have i2 : apply q23 (apply q12 (v.drop s12.length)) = apply q13 (v.drop s12.length) :=
+                        ih q12 q23 q13 hb12 hb23 hb13 _ hdrop
+                      rw [i1, i2]
+
 /-! ### the built-in tables (regenerated from the source on every run) -/
 
 /-- 7. Every entry of every built-in convention table lists each function of its shell type
